@@ -750,6 +750,26 @@ func checkC17(c *CheckCtx) error {
 			c.nontrivial(sc.Note)
 		}
 	}
+	// YAML numbers: a whole number decodes as an integer type, so Type[float64] does not accept it
+	// (and Type[uint64] does not accept a fraction); each input form
+	for i, hc := range []struct {
+		t, path string
+		fail    bool
+	}{{"float64", "$.price", true}, {"float64", "$.ratio", false}, {"uint64", "$.price", false}, {"uint64", "$.ratio", true}, {"int", "$.price", true}} {
+		for k, v := range []*Val{strVal("price: 10\nratio: 10.5\n"), bytesVal("price: 10\nratio: 10.5\n")} {
+			sc := &Scenario{ID: fmt.Sprintf("yt%d_%d", i, k), Configs: stdConfigs(), Program: []string{"TestA"}}
+			x := &Expect{VID: fmt.Sprintf("yt:%s:%s", hc.t, hc.path), Inj: true}
+			if hc.fail {
+				x = &Expect{MFail: [][2]string{{"Type", hc.path}}}
+			}
+			sc.Procs = append(sc.Procs, &Proc{Spec: procSpec("default"), Steps: []*Step{{Op: "begin", Name: "TestA"},
+				{Op: "match", Name: "TestA", API: "yaml", Cfg: "c", Val: v, Matchers: []*Matcher{{M: "type", T: hc.t, Paths: []string{hc.path}}}, X: x},
+				{Op: "match", Name: "TestA", API: "yaml", Cfg: "c", Val: strVal("after: true\n")}, {Op: "end", Name: "TestA"}}})
+			sc.Note = fmt.Sprintf("Type[%s](%q) on {price: 10, ratio: 10.5} via yaml, must fail=%v", hc.t, hc.path, hc.fail)
+			scs = append(scs, sc)
+			c.nontrivial(sc.Note)
+		}
+	}
 	// many failures in one call: every one of them is named (12 and 25 missing paths; one matcher with
 	// many paths and many matchers with one path each)
 	for i, n := range []int{12, 25} {
